@@ -15,6 +15,7 @@ use nomt_core::proof::{
 };
 use nomt_core::trie::{InternalData, LeafData, Node, TERMINATOR};
 use nomt_core::trie_pos::TriePosition;
+use nomt_core::witness::{Witness, WitnessedOperations, WitnessedPath, WitnessedRead, WitnessedWrite};
 use serde_json::{json, Value};
 use std::collections::{BTreeMap, BTreeSet};
 
@@ -1481,6 +1482,239 @@ impl ProofX {
         out
     }
 
+    /// Witness objects (`nomt_core::witness::Witness`): the documented verification flow
+    /// (examples/witness_verification: `path.path()` → `PathProof::verify` → `confirm_*` for the
+    /// reads of that path → `verify_update` over the collected writes) applied to every honest
+    /// witness over S (reads of all family keys, every write set of ≤ 2 keys), to every structural
+    /// mutant (paths dropped / duplicated / reversed / rotated, `path` fields swapped between
+    /// entries, reads / writes re-indexed, reversed or emptied) and to every object a deserialiser
+    /// can build by replacing one integer field (position depth, node index, path index, multi
+    /// depth …) by an extreme. The verifier-side glue is written without indexing or unwraps, so a
+    /// panic can only come out of nomt-core. Honest witnesses must also yield the reference root.
+    fn run_c18_witness(&mut self, case: &Value) -> Outcome {
+        let mask = case["s"].as_u64().unwrap() as u32;
+        let t = Trie::new(mask);
+        let fam = t.fam.clone();
+        let mut out = Outcome::default();
+        out.nontrivial = true;
+        let mut found: BTreeMap<String, String> = BTreeMap::new();
+        let mut objects = 0u64;
+        let extremes: Vec<u64> = vec![0, 1, 2, 255, 256, 257, 300, 4095, 65535];
+
+        // the documented flow; Err(String) = an error VALUE from a verifier (fine)
+        fn flow(w: &Witness, root: Node) -> Result<Node, String> {
+            let mut updates = Vec::new();
+            for (i, wp) in w.path_proofs.iter().enumerate() {
+                let verified = wp.inner.verify::<H>(&wp.path.path(), root).map_err(|e| format!("{e:?}"))?;
+                for read in w.operations.reads.iter().skip_while(|r| r.path_index != i).take_while(|r| r.path_index == i) {
+                    match read.value {
+                        None => {
+                            let _ = verified.confirm_nonexistence(&read.key);
+                        }
+                        Some(value_hash) => {
+                            let _ = verified.confirm_value(&LeafData { key_path: read.key, value_hash });
+                        }
+                    }
+                }
+                let ops: Vec<(Key, Option<Vh>)> = w.operations.writes.iter().skip_while(|r| r.path_index != i).take_while(|r| r.path_index == i).map(|x| (x.key, x.value)).collect();
+                if !ops.is_empty() {
+                    updates.push(PathUpdate { inner: verified, ops });
+                }
+            }
+            verify_update::<H>(root, &updates).map_err(|e| format!("{e:?}"))
+        }
+
+        // distinct paths of the family keys, in key order, and each key's path index
+        let mut paths: Vec<(Key, PathProof)> = vec![];
+        let mut index_of: Vec<usize> = vec![];
+        for k in fam.iter() {
+            let p = t.honest(k);
+            let d = p.siblings.len();
+            match paths.iter().position(|(ok, o)| o.siblings.len() == d && prefix_eq(k, ok, d)) {
+                Some(i) => index_of.push(i),
+                None => {
+                    paths.push((*k, p));
+                    index_of.push(paths.len() - 1);
+                }
+            }
+        }
+        // (family keys are listed in an order that need not be ascending: sort paths by key and
+        // remap)
+        let mut order: Vec<usize> = (0..paths.len()).collect();
+        order.sort_by(|a, b| paths[*a].0[..].cmp(&paths[*b].0[..]));
+        let rank: Vec<usize> = {
+            let mut r = vec![0; order.len()];
+            for (new, old) in order.iter().enumerate() {
+                r[*old] = new;
+            }
+            r
+        };
+        let mk_witness = |writes: &[(usize, Option<Vh>)]| -> Witness {
+            let path_proofs: Vec<WitnessedPath> = order
+                .iter()
+                .map(|&o| {
+                    let (k, p) = &paths[o];
+                    let d = p.siblings.len();
+                    WitnessedPath { inner: p.clone(), path: if d == 0 { TriePosition::new() } else { TriePosition::from_path_and_depth(*k, d as u16) } }
+                })
+                .collect();
+            let mut reads: Vec<WitnessedRead> = fam.iter().enumerate().map(|(i, k)| WitnessedRead { key: *k, value: t.set.get(k).cloned(), path_index: rank[index_of[i]] }).collect();
+            reads.sort_by(|a, b| (a.path_index, &a.key[..]).cmp(&(b.path_index, &b.key[..])));
+            let mut ws: Vec<WitnessedWrite> = writes.iter().map(|(i, v)| WitnessedWrite { key: fam[*i], value: *v, path_index: rank[index_of[*i]] }).collect();
+            ws.sort_by(|a, b| (a.path_index, &a.key[..]).cmp(&(b.path_index, &b.key[..])));
+            Witness { path_proofs, operations: WitnessedOperations { reads, writes: ws } }
+        };
+        let mut record = |what: &str, msg: String, found: &mut BTreeMap<String, String>| {
+            let fp = format!("panic:witness-flow:{}", msg_class(&msg));
+            found.entry(fp).or_insert_with(|| format!("the witness verification flow panicked on {what} (S={mask:#x}): {msg} (at {})", crate::last_panic_location()));
+        };
+        // write sets: every ≤ 2 family keys, each inserted / overwritten and deleted
+        let mut write_sets: Vec<Vec<(usize, Option<Vh>)>> = vec![vec![]];
+        for q in subsets_upto(fam.len(), 2) {
+            if q.is_empty() {
+                continue;
+            }
+            write_sets.push(q.iter().map(|&i| (i, Some(vh(i, 1)))).collect());
+            write_sets.push(q.iter().enumerate().map(|(n, &i)| (i, if n == 0 { None } else { Some(vh(i, 1)) })).collect());
+        }
+        for (wi, ws) in write_sets.iter().enumerate() {
+            let w = mk_witness(ws);
+            objects += 1;
+            // honest: must succeed with the reference root
+            let ops: Vec<(Key, Option<Vh>)> = ws.iter().map(|(i, v)| (fam[*i], *v)).collect();
+            match guarded(|| flow(&w, t.root)) {
+                Err(m) => record("an HONEST witness", m, &mut found),
+                Ok(Ok(r)) => {
+                    if r != t.root_after(&ops) {
+                        found.entry("witness-flow-wrong-root".into()).or_insert_with(|| format!("honest witness over S={mask:#x}, writes {ws:?}: flow returned {} but the reference root is {}", hex(&r[..6]), hex(&t.root_after(&ops)[..6])));
+                    }
+                }
+                Ok(Err(e)) => {
+                    found.entry("witness-flow-honest-refused".into()).or_insert_with(|| format!("honest witness over S={mask:#x}, writes {ws:?}: refused with {e}"));
+                }
+            }
+            // mutants only for a sample of write sets (the empty one, the first few)
+            if wi > 6 {
+                continue;
+            }
+            let base = serde_json::to_value(&w).expect("serialise witness");
+            let mut mutants: Vec<(String, Value)> = vec![];
+            // (a) structural
+            let n = base["path_proofs"].as_array().map_or(0, |a| a.len());
+            let arr = |v: &Value, f: &str| v[f].as_array().cloned().unwrap_or_default();
+            {
+                let pp = arr(&base, "path_proofs");
+                for i in 0..n {
+                    let mut v = base.clone();
+                    let mut a = pp.clone();
+                    a.remove(i);
+                    v["path_proofs"] = Value::Array(a);
+                    mutants.push((format!("path {i} dropped"), v));
+                    let mut v = base.clone();
+                    let mut a = pp.clone();
+                    a.insert(i, pp[i].clone());
+                    v["path_proofs"] = Value::Array(a);
+                    mutants.push((format!("path {i} duplicated"), v));
+                    for j in 0..n {
+                        if i != j {
+                            let mut v = base.clone();
+                            v["path_proofs"][i]["path"] = pp[j]["path"].clone();
+                            mutants.push((format!("path {i} carries the position of path {j}"), v));
+                            let mut v = base.clone();
+                            v["path_proofs"][i]["inner"] = pp[j]["inner"].clone();
+                            mutants.push((format!("path {i} carries the proof of path {j}"), v));
+                        }
+                    }
+                }
+                let mut v = base.clone();
+                let mut a = pp.clone();
+                a.reverse();
+                v["path_proofs"] = Value::Array(a);
+                mutants.push(("paths reversed".into(), v));
+                let mut v = base.clone();
+                v["path_proofs"] = json!([]);
+                mutants.push(("no paths".into(), v));
+                for f in ["reads", "writes"] {
+                    let ops = base["operations"][f].as_array().cloned().unwrap_or_default();
+                    let mut v = base.clone();
+                    let mut a = ops.clone();
+                    a.reverse();
+                    v["operations"][f] = Value::Array(a);
+                    mutants.push((format!("{f} reversed"), v));
+                    let mut v = base.clone();
+                    v["operations"][f] = json!([]);
+                    mutants.push((format!("no {f}"), v));
+                    for x in 0..n.max(1) {
+                        let mut v = base.clone();
+                        for o in v["operations"][f].as_array_mut().unwrap() {
+                            o["path_index"] = json!(x);
+                        }
+                        mutants.push((format!("every {f} entry points at path {x}"), v));
+                    }
+                    let mut v = base.clone();
+                    let mut a = ops.clone();
+                    a.extend(ops.clone());
+                    v["operations"][f] = Value::Array(a);
+                    mutants.push((format!("{f} listed twice"), v));
+                }
+            }
+            // (b) every integer field replaced by an extreme
+            fn int_paths(v: &Value, cur: &mut Vec<String>, outp: &mut Vec<Vec<String>>) {
+                match v {
+                    Value::Object(m) => {
+                        for (k, x) in m {
+                            cur.push(k.clone());
+                            int_paths(x, cur, outp);
+                            cur.pop();
+                        }
+                    }
+                    Value::Array(a) => {
+                        if !a.is_empty() && a.iter().all(|x| x.is_number()) {
+                            return;
+                        }
+                        for (i, x) in a.iter().enumerate() {
+                            cur.push(i.to_string());
+                            int_paths(x, cur, outp);
+                            cur.pop();
+                        }
+                    }
+                    Value::Number(_) => outp.push(cur.clone()),
+                    _ => {}
+                }
+            }
+            let mut fields = vec![];
+            int_paths(&base, &mut vec![], &mut fields);
+            for f in &fields {
+                for &x in &extremes {
+                    let mut v = base.clone();
+                    let mut cur = &mut v;
+                    for p in f {
+                        cur = if cur.is_array() { &mut cur[p.parse::<usize>().unwrap()] } else { &mut cur[p.as_str()] };
+                    }
+                    *cur = json!(x);
+                    mutants.push((format!("field {} = {x}", f.join(".")), v));
+                }
+            }
+            for (what, v) in mutants {
+                let Ok(obj) = serde_json::from_value::<Witness>(v) else { continue };
+                objects += 1;
+                if let Err(m) = guarded(|| flow(&obj, t.root)) {
+                    record(&format!("a witness with {what}"), m, &mut found);
+                }
+            }
+        }
+        out.transitions = objects;
+        out.states.push(mask as u64 | 1 << 42);
+        out.sig = fnv_str(&format!("witness{mask}:{objects}"));
+        if objects > 0 {
+            out.goals.push("witness-objects-verified");
+        }
+        let mut it = found.into_iter().map(|(fp, msg)| v(&fp, msg));
+        out.violation = it.next();
+        out.more = it.collect();
+        out
+    }
+
     fn run_c18(&mut self, case: &Value) -> Outcome {
         let mask = case["s"].as_u64().unwrap() as u32;
         let qmax = case["qmax"].as_u64().unwrap() as usize;
@@ -1747,10 +1981,14 @@ impl Engine for ProofX {
                 for (m, k) in masks_upto(12, if thorough { 3 } else { 2 }) {
                     cases.push(json!({"mode": "c18serde", "s": m, "bound": k}));
                 }
+                // witness objects through the documented verification flow
+                for (m, k) in masks_upto(12, if thorough { 4 } else { 3 }) {
+                    cases.push(json!({"mode": "c18witness", "s": m, "bound": k}));
+                }
                 // a multi-proof with more than 65 535 siblings (verdicts only)
                 cases.push(json!({"mode": "huge", "bound": 1, "panic_only": true}));
                 cases.sort_by_key(|c| c["bound"].as_u64().unwrap());
-                let mut p = Plan::new(cases, format!("proofx: every object of the C08 mutation grammar without the 'verifies' filter plus structural extremes (depth ∈ {{0,1,255,256,257,2^63,usize::MAX}}, depth ∈ {{255,256,257,300}} backed by that many siblings, 255..300 siblings, empty/duplicated/prefix-related path lists, key slices of length 0/3/len/256, operation lists empty/unsorted/duplicated/out-of-scope/all-keys), over every key set S of ≤{smax} keys; each public verifier entry point (PathProof::verify, confirm_*, verify_update, verify_multi_proof, confirm_*_with_index for every valid index, find_index_for, verify_multi_proof_update) is called under catch_unwind in an isolated child process with a timeout; any panic / abort / timeout is a violation, fingerprinted by (entry point, mutation class, panic class). Plus values only a deserialiser can build (nomt-core's serde feature): every honest path proof and every multi-proof over ≤2 and over all keys of every S of ≤2 (thorough 3) keys is serialised, every integer field (terminator depth, node index, multi-path depth) is replaced by each of {{0,1,255,256,257,300,4095,65535}}, and whatever deserialises is fed to every entry point."));
+                let mut p = Plan::new(cases, format!("proofx: every object of the C08 mutation grammar without the 'verifies' filter plus structural extremes (depth ∈ {{0,1,255,256,257,2^63,usize::MAX}}, depth ∈ {{255,256,257,300}} backed by that many siblings, 255..300 siblings, empty/duplicated/prefix-related path lists, key slices of length 0/3/len/256, operation lists empty/unsorted/duplicated/out-of-scope/all-keys), over every key set S of ≤{smax} keys; each public verifier entry point (PathProof::verify, confirm_*, verify_update, verify_multi_proof, confirm_*_with_index for every valid index, find_index_for, verify_multi_proof_update) is called under catch_unwind in an isolated child process with a timeout; any panic / abort / timeout is a violation, fingerprinted by (entry point, mutation class, panic class). Plus values only a deserialiser can build (nomt-core's serde feature): every honest path proof and every multi-proof over ≤2 and over all keys of every S of ≤2 (thorough 3) keys is serialised, every integer field (terminator depth, node index, multi-path depth) is replaced by each of {{0,1,255,256,257,300,4095,65535}}, and whatever deserialises is fed to every entry point. Plus WITNESS objects (nomt_core::witness::Witness) through the documented verification flow (TriePosition::path → PathProof::verify → confirm_* for the path's reads → verify_update over the collected writes; glue code without indexing or unwraps): every honest witness over every S of ≤3 (thorough 4) keys with reads of all 12 family keys and every write set of ≤2 keys (must return the reference root), every structural mutant (paths dropped / duplicated / reversed / emptied, position or proof of one path planted into another, reads / writes reversed / emptied / doubled / all pointed at one path) and every object obtained by replacing one integer field of the serialised witness (position depth, node index, path index, …) by each of {{0,1,2,255,256,257,300,4095,65535}}."));
                 p.budget_s = if thorough { 1700 } else { 55 };
                 p.isolate = true;
                 p.case_timeout_s = 600;
@@ -1770,6 +2008,7 @@ impl Engine for ProofX {
             "c08" => self.run_c08(case),
             "c18" => self.run_c18(case),
             "c18serde" => self.run_c18_serde(case),
+            "c18witness" => self.run_c18_witness(case),
             m => panic!("bad mode {m}"),
         }
     }
